@@ -21,6 +21,7 @@ meta = {
     "confirmed_by_me": ["suite passes with the change (go test ./larking/ -skip TestSeedDemo)", "TestSeedDemo fails with the change", "TestSeedDemo passes without it"],
     "ran": [f"VERIF_REPO=/tmp/{PFX}-{ID} python3 run.py <prop> quick (tools/eval_seed.sh); re-run against the current HEAD by tools/seeds_all.py"],
     "caught_by": [] if caught == "-" else caught.split(","),
+    "initially_missed": "missed" in needs.lower(),
 }
 json.dump(meta, open(f"{dst}/meta.json", "w"), indent=1)
 print("saved", dst)
